@@ -3,8 +3,8 @@
 #  patch applies + builds + the 93 tests pass; demo fails with the patch and passes without.
 # On success copies it to /verif/seeded/<Cxx>[suffix]/ with a meta.json skeleton.
 set -u
-id=$1; suf=${2:-}
-src=/tmp/seed-$id/out
+id=$1; suf=${2:-}; pre=${3:-seed}
+src=/tmp/$pre-$id/out
 W=/var/tmp/confirm-$id
 export CARGO_NET_OFFLINE=true CARGO_TARGET_DIR=/var/tmp/confirm-target
 git -C /repo worktree remove --force $W >/dev/null 2>&1
